@@ -341,7 +341,7 @@ impl Prop for C05 {
                     };
                     // Clarabel on an unbounded model sometimes stops at a point of astronomic size and
                     // calls it solved (recorded finding): a value beyond 1e12 is that situation
-                    let astronomic = matches!((w, a, t), (Which::Clarabel, Ans::Ok(s), Verdict::Unbounded) if s.value.abs() >= 1e12);
+                    let astronomic = matches!((w, a, t), (Which::Clarabel, Ans::Ok(s), Verdict::Unbounded) if s.value.abs() >= 1e12 || s.values.iter().any(|v| v.abs() >= 1e8));
                     let sig = format!(
                         "{}:{}-vs-{}{}{}",
                         w.name(),
